@@ -121,46 +121,56 @@ def Tap.play (t : Tap) : Tap :=
     (if t.prev = .stop then { t with state := .play } else { t with state := t.prev })
   else t
 
+/-- one pass through the `match self.state` of `process_clocks`: either `break 'state_machine`
+(`done`) or another pass of the loop (`again`) -/
+inductive Turn
+  | done (r : TR Unit) (t : Tap)
+  | again (t : Tap)
+
+def Tap.turn (t : Tap) : Turn :=
+  match t.state with
+  | .stop =>
+    match t.rewind with
+    | (.stop o, t') => .done (.stop o) t'
+    | (.ok (), t') => .done (.ok ()) { t' with state := .stop }
+  | .play =>
+    match t.nextBlock with
+    | (.stop o, t') => .done (.stop o) t'
+    | (.ok false, t') => .again { t' with state := .stop }
+    | (.ok true, t') =>
+      match t'.nextBlockByte with
+      | (.stop o, t'') => .done (.stop o) t''
+      | (.ok none, t'') => .done (.stop (.err .invalidTap)) t''
+      | (.ok (some b), t'') =>
+        .done (.ok ()) { t'' with currByte := b, currBit := true, delay := 2168,
+                                  state := .pilot (if b = 0 then 8063 else 3223) }
+  | .pilot n =>
+    -- pulses_left -= 1
+    if n = 0 then .done (.stop (.panic .tapPilot)) t
+    else if n - 1 = 0 then .done (.ok ()) { t with currBit := !t.currBit, delay := 667, state := .sync }
+    else .done (.ok ()) { t with currBit := !t.currBit, delay := 2168, state := .pilot (n - 1) }
+  | .sync => .done (.ok ()) { t with currBit := !t.currBit, delay := 735, state := .nextBit 0x80 }
+  | .nextByte =>
+    match t.nextBlockByte with
+    | (.stop o, t') => .done (.stop o) t'
+    | (.ok (some b), t') => .again { t' with currByte := b, state := .nextBit 0x80 }
+    | (.ok none, t') => .again { t' with state := .pause }
+  | .nextBit mask =>
+    let d := if t.currByte &&& mask = 0 then 855 else 1710
+    .done (.ok ()) { t with currBit := !t.currBit, delay := d, state := .bitHalf d mask }
+  | .bitHalf d mask =>
+    let mask := mask / 2
+    .done (.ok ()) { t with currBit := !t.currBit, delay := d,
+                            state := if mask = 0 then .nextByte else .nextBit mask }
+  | .pause => .done (.ok ()) { t with currBit := !t.currBit, delay := 3500000, state := .play }
+
 /-- the `'state_machine: loop` of `process_clocks` -/
 def Tap.machine : Nat → Tap → TR Unit × Tap
   | 0, t => (.stop .hang, t)
-  | fuel + 1, t0 =>
-    let t := { t0 with ticks := t0.ticks + 1 }
-    match t.state with
-    | .stop =>
-      match t.rewind with
-      | (.stop o, t') => (.stop o, t')
-      | (.ok (), t') => (.ok (), { t' with state := .stop })
-    | .play =>
-      match t.nextBlock with
-      | (.stop o, t') => (.stop o, t')
-      | (.ok false, t') => Tap.machine fuel { t' with state := .stop }
-      | (.ok true, t') =>
-        match t'.nextBlockByte with
-        | (.stop o, t'') => (.stop o, t'')
-        | (.ok none, t'') => (.stop (.err .invalidTap), t'')
-        | (.ok (some b), t'') =>
-          (.ok (), { t'' with currByte := b, currBit := true, delay := 2168,
-                              state := .pilot (if b = 0 then 8063 else 3223) })
-    | .pilot n =>
-      -- pulses_left -= 1
-      if n = 0 then (.stop (.panic .tapPilot), t)
-      else if n - 1 = 0 then (.ok (), { t with currBit := !t.currBit, delay := 667, state := .sync })
-      else (.ok (), { t with currBit := !t.currBit, delay := 2168, state := .pilot (n - 1) })
-    | .sync => (.ok (), { t with currBit := !t.currBit, delay := 735, state := .nextBit 0x80 })
-    | .nextByte =>
-      match t.nextBlockByte with
-      | (.stop o, t') => (.stop o, t')
-      | (.ok (some b), t') => Tap.machine fuel { t' with currByte := b, state := .nextBit 0x80 }
-      | (.ok none, t') => Tap.machine fuel { t' with state := .pause }
-    | .nextBit mask =>
-      let d := if t.currByte &&& mask = 0 then 855 else 1710
-      (.ok (), { t with currBit := !t.currBit, delay := d, state := .bitHalf d mask })
-    | .bitHalf d mask =>
-      let mask := mask / 2
-      (.ok (), { t with currBit := !t.currBit, delay := d,
-                        state := if mask = 0 then .nextByte else .nextBit mask })
-    | .pause => (.ok (), { t with currBit := !t.currBit, delay := 3500000, state := .play })
+  | fuel + 1, t =>
+    match Tap.turn { t with ticks := t.ticks + 1 } with
+    | .done r t' => (r, t')
+    | .again t' => Tap.machine fuel t'
 
 /-- `process_clocks` -/
 def Tap.processClocks (t : Tap) (clocks : Nat) : TR Unit × Tap :=
